@@ -587,6 +587,71 @@ def ambient_lifecycle_leg(c):
         c.violation('ambient state across deep.start() / hit / shutdown(): %s' % problems, path, signature=sig)
 
 
+RECURSION_HOST = '''
+def down(n):
+    if n == 0:
+        return 0
+    return down(n - 1) + 1
+
+
+def spot(a):
+    return a  # TP:spot
+'''
+
+
+def recursion_leg(c, wd):
+    """A program that recurses to within a few frames of the interpreter's limit: the same result with the agent attached
+    (its trace function needs frames of its own at the deepest point), and tracing still on afterwards."""
+    import threading
+    from .. import rig as R
+    mod, path, marks = R.write_host(wd, RECURSION_HOST)
+    out = {}
+
+    def body():
+        def noop(frame, event, arg):        # (the harness's own wrapper costs one frame per event: so does this one)
+            return noop
+
+        def deepest():
+            lo, hi = 10, sys.getrecursionlimit() + 10
+            while lo < hi:              # the deepest recursion that works WITHOUT the agent, on this stack
+                mid = (lo + hi + 1) // 2
+                sys.settrace(noop)
+                try:
+                    mod.down(mid)
+                    lo = mid
+                except RecursionError:
+                    hi = mid - 1
+                finally:
+                    sys.settrace(None)
+            return lo
+        n = deepest()
+        rg = R.Rig()
+        try:
+            rg.install([{'id': 'tp-spot', 'path': path.rsplit('/', 1)[-1], 'line': marks['spot'],
+                         'args': {'fire_count': '-1', 'fire_period': '0'}}])
+            res = rg.run(mod.down, n, only_file=path)
+            after = rg.run(mod.spot, 1, only_file=path)
+            out['r'] = (n, res, len(rg.snapshots()), after, list(rg.escaped))
+        finally:
+            rg.close()
+    th = threading.Thread(target=body)
+    th.start()
+    th.join(120)
+    sys.modules.pop(mod.__name__, None)
+    if 'r' not in out:
+        raise tlc.MachineryError('recursion case did not finish')
+    n, res, nsnap, after, escaped = out['r']
+    c.traces_validated += 1
+    c.note_case(key=('recursion-near-limit',), nontrivial=True)
+    if res != ('ok', n) or escaped:
+        c.violation('a recursion %d deep (the deepest that works without the agent) gives %r with the agent attached '
+                    '(errors out of the trace function: %s)' % (n, res[:2], escaped[:1]), None,
+                    signature={'recursion': 'near-limit'})
+    elif after != ('ok', 1) or nsnap != 1:
+        c.violation('after a recursion near the limit the tracepoint no longer acts (%d snapshots)' % nsnap, None,
+                    signature={'recursion': 'near-limit'})
+
+
 def run(c):
     quick = c.tier == 'quick'
     rng = random.Random(c.seed)
@@ -610,6 +675,7 @@ def run(c):
     traces, meta = plugin_faults(c, wd)
     validate(c, traces, meta, 'plugin-callback')
     lock_probe_leg(c, wd)
+    recursion_leg(c, wd)
     # (always: a snapshot taken inside a method that uses zero-argument super() - its frame holds the __class__ cell -
     # and the method called again afterwards)
     cell = [([dict(id=1, kind='line', file='a', line='ktag', span='none'), dict(id=2, kind='line', file='a', line='kf_last', span='none')],
